@@ -1723,7 +1723,7 @@ class LoopExpression(Expression):
             return iter(obj), len(obj)
 
         raise LiquidTypeError(
-            f"expected an iterable at '{self.iterable}', found '{obj}'",
+            f"expected an iterable at '{self.iterable}', found '{_safe_str(obj)}'",
             token=self.token,
         )
 
@@ -2201,7 +2201,7 @@ def _to_liquid_string(val: Any, *, auto_escape: bool = False) -> str:
     elif val is None:
         val = ""
     elif isinstance(val, range):
-        val = f"{_str(val.start)}..{_str(val.stop - 1)}"
+        val = f"{_safe_str(val.start)}..{_safe_str(val.stop - 1)}"
     elif isinstance(val, Sequence):
         if auto_escape:
             val = Markup("").join(
@@ -2214,7 +2214,7 @@ def _to_liquid_string(val: Any, *, auto_escape: bool = False) -> str:
     elif isinstance(val, (Empty, Blank)):
         val = ""
     else:
-        val = _str(val)
+        val = _safe_str(val)
 
     if auto_escape:
         val = escape(val)
@@ -2223,7 +2223,7 @@ def _to_liquid_string(val: Any, *, auto_escape: bool = False) -> str:
     return val
 
 
-def _str(val: object) -> str:
+def _safe_str(val: object) -> str:
     try:
         return str(val)
     except ValueError as err:
